@@ -428,6 +428,7 @@ func TestCheck(t *testing.T) {
 	rec.Note("rule", "a case is one history against the real Batcher in a synctest bubble: (lockstep) seeded Batch / sleep / Subscribe / cancel / Close sequences on a 1 ms grid with prompt subscribers, judged against the debounce reference including exact delivery instants; (stall) a never-reading subscriber with 52-70 events outstanding (past the 50-slot buffer) while further Batch / Subscribe / Close calls are made, resolved by cancelling or unleashing it; (directed) the delivery loop parked at fanout.send or a forwarder at fwd.exit while cancel / Close / Subscribe / Batch are issued. Non-trivial = at least one value was delivered to a subscriber; distinct = distinct step list.")
 	rec.Note("require", []string{"park.fanout.send", "park.fwd.exit", "judged", "stall.fanout_blocked", "stall.resolved_by_cancel", "stall.resolved_by_unleash", "delivered", "closed_channels_seen"})
 	ps := plans()
+	rec.Planned(len(ps))
 	for idx, pl := range ps {
 		if !mon.Mine(idx) {
 			continue
